@@ -121,32 +121,77 @@ def clineName : CLine → Bytes
   | .sum _ n _ => n
   | .size n _ => n
 
-/-- canonical: Id line, blank line, blocks of consecutive lines per file (checksums, then at
-    most one Size, last), every file once, distfile blocks before patch blocks, no Size for
-    patches; ends with '\n' -/
-def canonicalDistinfo (f : Bytes) : Bool :=
+/-! A canonical file as data: the Id line, then one block per distfile (its checksum lines,
+    then its Size line), then one block per patch (checksum lines only). -/
+
+structure CBlock where
+  name : Bytes
+  sums : List (Digest × Bytes)
+  size : Option Nat
+  deriving DecidableEq
+
+structure CFile where
+  id : Bytes
+  dists : List CBlock
+  patches : List CBlock
+  deriving DecidableEq
+
+def CBlock.render (b : CBlock) : Bytes :=
+  (b.sums.flatMap fun c => M.checksumLine c.1 b.name c.2) ++
+    (match b.size with | some n => M.sizeLine b.name n | none => [])
+
+def CFile.render (f : CFile) : Bytes :=
+  f.id ++ [10, 10] ++ f.dists.flatMap CBlock.render ++ f.patches.flatMap CBlock.render
+
+/-- a block records something, under a blank-free name, with blank-free UTF-8 hashes and a
+    u64 size -/
+def CBlock.wf (b : CBlock) : Bool :=
+  cleanName b.name && b.sums.all (fun c => cleanHash c.2) && (!b.sums.isEmpty || b.size.isSome) &&
+  (match b.size with | some n => decide (n ≤ M.u64Max) | none => true)
+
+/-- no two names denote the same file (component-wise) -/
+def distinctNames : List Bytes → Bool
+  | [] => true
+  | n :: rest => rest.all (fun m => !sameFile n m) && distinctNames rest
+
+def CFile.wf (f : CFile) : Bool :=
+  (f.id == M.ascii "$NetBSD$" || ((M.ascii "$NetBSD: ").isPrefixOf f.id && !f.id.contains 10)) &&
+  f.dists.all (fun b => b.wf && M.entryType b.name == .distfile) &&
+  f.patches.all (fun b => b.wf && M.entryType b.name == .patchfile && b.size.isNone) &&
+  distinctNames (f.dists.map (·.name)) && distinctNames (f.patches.map (·.name))
+
+/-- the Distinfo the data denotes -/
+def CBlock.entry (b : CBlock) (t : EntryType) : M.Entry :=
+  { filename := b.name, checksums := b.sums, size := b.size, filetype := t }
+
+def CFile.distinfo (f : CFile) : M.Distinfo :=
+  { rcsid := if f.id == M.ascii "$NetBSD$" then none else some f.id,
+    distfiles := f.dists.map fun b => (b.name, b.entry .distfile),
+    patchfiles := f.patches.map fun b => (b.name, b.entry .patchfile) }
+
+/-- read a file as blocks (any grouping of consecutive strict lines by name; whether the result
+    is THE canonical reading is decided by rendering it back, below) -/
+def parseCanon (f : Bytes) : Option CFile :=
   match M.splitNl' f with
-  | id :: blank :: rest =>
-    (id == M.ascii "$NetBSD$" || (M.ascii "$NetBSD: ").isPrefixOf id) && blank.isEmpty &&
-    rest.getLast? == some [] &&
-    let body := rest.dropLast
-    match body.mapM strictLine with
-    | none => false
+  | id :: _ :: rest =>
+    match rest.dropLast.mapM strictLine with
+    | none => none
     | some ls =>
-      let blocks := ls.splitBy fun a b => clineName a == clineName b
-      let names := blocks.filterMap fun bl => bl.head?.map clineName
-      -- distinct files (component-wise), spelled once
-      (names.zipIdx.all fun (n, i) => (names.take i).all fun m => !sameFile m n) &&
-      -- Size only last in its block, never for patches
-      (blocks.all fun bl =>
-        (bl.dropLast.all fun | .sum .. => true | .size .. => false) &&
-        (match bl.head? with
-         | some l => entryType (clineName l) == .distfile || bl.all fun | .sum .. => true | .size .. => false
-         | none => true)) &&
-      -- all distfile blocks before all patch blocks
-      (let kinds := names.map entryType
-       (kinds.dropWhile (· == .distfile)).all (· == .patchfile))
-  | _ => false
+      let blocks := (ls.splitBy fun a b => clineName a == clineName b).filterMap fun bl =>
+        bl.head?.map fun l0 =>
+          ({ name := clineName l0,
+             sums := bl.filterMap (fun | .sum d _ h => some (d, h) | .size .. => none),
+             size := (bl.filterMap (fun | .size _ n => some n | .sum .. => none)).head? } : CBlock)
+      some { id := id,
+             dists := blocks.filter (fun b => M.entryType b.name == .distfile),
+             patches := blocks.filter (fun b => M.entryType b.name != .distfile) }
+  | _ => none
+
+/-- canonical layout: the file is the rendering of well-formed block data -/
+def canonicalDistinfo (f : Bytes) : Bool :=
+  match parseCanon f with
+  | some cf => cf.wf && cf.render == f
+  | none => false
 
 /-! ### lookup (C12) -/
 
